@@ -211,7 +211,7 @@ def assemble(template, fns, twins=False, repo=REPO):
         if fn.loops:
             ordinal = 0
             for bi, bl in enumerate(body_lines):
-                if re.search(r'^\s*(while\b|for\b|loop\b)', bl):
+                if re.search(r'^\s*(while\b|for\b|loop\b)', bl):  # `while let` included
                     if ordinal in fn.loops:
                         spec = fn.loops[ordinal]
                         # header prefix | one generated line per invariant clause (so a failing span names its clause) | rest
@@ -227,6 +227,11 @@ def assemble(template, fns, twins=False, repo=REPO):
                         if spec.get('invariant'):
                             parts.append(('        invariant', None))
                             for (lab, e) in spec['invariant']:
+                                parts.append(('            ' + e + ',', dict(kind='loopinv', label=lab)))
+                        if spec.get('ensures'):
+                            # what holds when the loop is left (needed for `while let`, which leaves through a break)
+                            parts.append(('        ensures', None))
+                            for (lab, e) in spec['ensures']:
                                 parts.append(('            ' + e + ',', dict(kind='loopinv', label=lab)))
                         if spec.get('decreases'):
                             parts.append(('        decreases ' + spec['decreases'] + ',', None))
